@@ -128,7 +128,7 @@ func c05Searches(p *run.Part, tier string) []*seqx.Search {
 	}
 	return []*seqx.Search{mk(CfgDef3, "", depth), mk(CfgHash3, "", depth-1), mk(CfgShared3, "", depth), mk(CfgSharedH, "", depth-1),
 		mk(CfgDef3, "+fork12", pd), mk(CfgDef3, "+tri4", pd), mkPolicy(mk, "denyB/default", depth), mkPolicy(mk, "denyP3/default", depth),
-		mk2(mk, depth+2), mkMixedCodec(mk, depth), mkEmpty(mk, CfgDef3, depth-1), mkPartial(mk, depth)}
+		mk2(mk, depth+2), mkMixedCodec(mk, depth), mkEmpty(mk, CfgDef3, depth-1), mkPartial(mk, depth), mkSetID(mk, depth-1)}
 }
 
 func init() {
